@@ -100,6 +100,7 @@ func hasGUID(l []guid.GUID, g guid.GUID) bool {
 //
 //	r<guid16>            remove GUID
 //	i<guid16>:<file>     insert file <file> after GUID
+//	R<guid16>            remove EVERY (non-pad) file of the volume that holds GUID, one remove each, no padding
 //	s                    save, re-parse, judge; go on with the re-parsed tree
 //	S                    save, re-parse, judge; go on with the SAME in-memory tree ("save a ... save b")
 //
@@ -145,6 +146,7 @@ func pEdits(args []string) string {
 		}
 	}
 	skeleton := deepWith(t, map[uefi.Firmware]string{inner: "@"})
+	encl, enclIdx := enclosingFile(t, inner) // to find the volume again when it has no file left
 	inserted := map[guid.GUID][]byte{}
 	var removed []guid.GUID
 	var tmpfiles []string
@@ -174,6 +176,21 @@ func pEdits(args []string) string {
 			want = nw
 			removed = append(removed, g)
 			delete(inserted, g)
+			dirty = true
+		case 'R':
+			var g guid.GUID
+			copy(g[:], UnH(st[1:33]))
+			if !hasGUID(want, g) || encl == nil {
+				return "skip"
+			}
+			for _, x := range want {
+				if err := runCLI(t, "remove", x.String()); err != nil {
+					return fmt.Sprintf("FAIL edit-error step %d %v", si, err)
+				}
+				removed = append(removed, x)
+				delete(inserted, x)
+			}
+			want = nil
 			dirty = true
 		case 'i':
 			var g, ng guid.GUID
@@ -226,12 +243,28 @@ func pEdits(args []string) string {
 			if err != nil {
 				return fmt.Sprintf("FAIL edited-image-does-not-parse step %d %v", si, err)
 			}
-			var al []loc
-			findFiles(t2, nil, want[0], &al)
-			if len(al) != 1 || al[0].fv == nil {
-				return fmt.Sprintf("FAIL edit-not-visible step %d anchor-file-missing", si)
+			var inner2 *uefi.FirmwareVolume
+			if len(want) > 0 {
+				var al []loc
+				findFiles(t2, nil, want[0], &al)
+				if len(al) != 1 || al[0].fv == nil {
+					return fmt.Sprintf("FAIL edit-not-visible step %d anchor-file-missing", si)
+				}
+				inner2 = al[0].fv
+			} else {
+				// the emptied volume: the enclIdx-th volume under the file that enclosed it
+				var el []loc
+				findFiles(t2, nil, encl.Header.GUID, &el)
+				if len(el) != 1 {
+					return fmt.Sprintf("FAIL edit-not-visible step %d enclosing-file-missing", si)
+				}
+				vs := volumesUnder(el[0].file)
+				if enclIdx >= len(vs) {
+					return fmt.Sprintf("FAIL edit-not-visible step %d emptied-volume-missing", si)
+				}
+				inner2 = vs[enclIdx]
+				nestedVols[inner2] = true
 			}
-			inner2 := al[0].fv
 			got := nonPadGUIDs(inner2)
 			if len(got) != len(want) {
 				return fmt.Sprintf("FAIL edit-not-visible step %d files %d want %d", si, len(got), len(want))
@@ -305,6 +338,55 @@ func pEdits(args []string) string {
 		}
 	}
 	return "ok"
+}
+
+// volumesUnder lists the volumes reached through the sections of f (not through further volumes), in order.
+func volumesUnder(f uefi.Firmware) []*uefi.FirmwareVolume {
+	var out []*uefi.FirmwareVolume
+	var walk func(uefi.Firmware)
+	walk = func(n uefi.Firmware) {
+		switch x := n.(type) {
+		case *uefi.File:
+			for _, s := range x.Sections {
+				walk(s)
+			}
+		case *uefi.Section:
+			for _, e := range x.Encapsulated {
+				walk(e.Value)
+			}
+		case *uefi.FirmwareVolume:
+			out = append(out, x)
+		}
+	}
+	walk(f)
+	return out
+}
+
+// enclosingFile finds the file whose sections hold the volume v directly, and v's index among the
+// volumes under that file.
+func enclosingFile(t uefi.Firmware, v *uefi.FirmwareVolume) (*uefi.File, int) {
+	var res *uefi.File
+	idx := 0
+	var walk func(uefi.Firmware)
+	walk = func(n uefi.Firmware) {
+		switch x := n.(type) {
+		case *uefi.BIOSRegion:
+			for _, e := range x.Elements {
+				walk(e.Value)
+			}
+		case *uefi.FirmwareVolume:
+			for _, f := range x.Files {
+				for i, u := range volumesUnder(f) {
+					if u == v {
+						res, idx = f, i
+					}
+					walk(u)
+				}
+			}
+		}
+	}
+	walk(t)
+	return res, idx
 }
 
 // ---------- repack ----------
